@@ -1,0 +1,11 @@
+//go:build verif
+
+package search
+
+import "github.com/sourcegraph/zoekt"
+
+// VerifNewFlushCollectSender exposes the unexported newFlushCollectSender (aggregate.go): the returned sender collects
+// and ranks results until opts.FlushWallTime has passed, then streams; the returned function is the final flush.
+func VerifNewFlushCollectSender(opts *zoekt.SearchOptions, sender zoekt.Sender) (zoekt.Sender, func()) {
+	return newFlushCollectSender(opts, sender)
+}
